@@ -265,14 +265,13 @@ def _clone(ex, callee, argv):
 
 
 def _array_eq(ex, callee, argv):
-    a, b = ex.load(argv[0]), ex.load(argv[1])
-    return _val_eq(ex, a, b)
+    return _val_eq(ex, argv[0], argv[1])
 
 
 def _val_eq(ex, a, b):
-    if isinstance(a, Ref):
+    while isinstance(a, Ref):
         a = ex.load(a)
-    if isinstance(b, Ref):
+    while isinstance(b, Ref):
         b = ex.load(b)
     if isinstance(a, Agg) and isinstance(b, Agg):
         if len(a.f) != len(b.f):
@@ -344,8 +343,8 @@ TABLE = [
     (re.compile(r"^(core::)?slice::<impl \[.*\]>::to_vec$"), _to_vec),
     (re.compile(r"^std::vec::from_elem$"), _from_elem),
     (re.compile(r"^<.* as Clone>::clone$"), _clone),
-    (re.compile(r"^<\[.*\] as PartialEq(<.*>)?>::eq$"), _array_eq),
-    (re.compile(r"^<\[.*\] as PartialEq(<.*>)?>::ne$"), _array_ne),
+    (re.compile(r"^<&*\[.*\] as PartialEq(<.*>)?>::eq$"), _array_eq),
+    (re.compile(r"^<&*\[.*\] as PartialEq(<.*>)?>::ne$"), _array_ne),
     (re.compile(r"^(Option|Result)::unwrap$"), _unwrap),
 ]
 
